@@ -7,6 +7,8 @@ from wv import h_channel, tv
 from wv.par import pmap
 
 CLAUSES = {
+    "C03": ["P04_wire_is_a_sequence_of_well_formed_responses", "P04_at_most_one_response_per_request", "P04_only_the_last_response_may_be_cut",
+            "P11_no_response_after_a_closing_response", "P11_closing_response_is_followed_by_close", "P11_nothing_executed_after_a_closing_response"],
     "C04": ["P04_wire_is_a_sequence_of_well_formed_responses", "P04_at_most_one_response_per_request",
             "P04_responses_in_request_order", "P04_response_body_intact", "P04_every_finished_request_has_its_response",
             "P04_only_the_last_response_may_be_cut", "P04_request_of_unknown_connection",
